@@ -14,6 +14,9 @@
 (*    model's prediction (live: the call can happen; cand: capabilities).  *)
 (*    Names a configuration cannot call are probed through the routes      *)
 (*    direct and sym only unless VERIF_SB_ALLROUTES=1 (thorough tier).     *)
+(*    Every vector also exists in the variants of Sandbox!Preludes (the    *)
+(*    script first binds the names of Shadow itself) and Sandbox!Histories *)
+(*    (an unsandboxed interpreter was set up in the process before).       *)
 (***************************************************************************)
 EXTENDS Sandbox
 
@@ -22,35 +25,59 @@ AllRoutes == "VERIF_SB_ALLROUTES" \in DOMAIN IOEnv /\ IOEnv.VERIF_SB_ALLROUTES =
 RouteSeq == U.routes
 NN == Len(U.names)
 NR == Len(RouteSeq)
-NV == Len(Cfgs) * NN * NR
 
-VC(k) == ((k - 1) \div (NN * NR)) + 1
+(* variants of a vector: [pre, hist] (Sandbox!Preludes, Sandbox!Histories).   *)
+(* quick tier: the prelude defn through the routes direct (the definitions    *)
+(* in earlier evaluations) and eval (in the same text) and the prelude defmac *)
+(* through direct, for the callable names; the history "after" through direct *)
+(* and sym for EVERY name (a name unbound in the sandbox-first order may be   *)
+(* bound in the other one).  thorough tier: every prelude kind and both       *)
+(* histories through every route, and defn combined with "after".             *)
+Variants == <<[pre |-> "", hist |-> ""],
+              [pre |-> "defn", hist |-> ""], [pre |-> "defmac", hist |-> ""], [pre |-> "", hist |-> "after"],
+              [pre |-> "def", hist |-> ""], [pre |-> "defn", hist |-> "after"]>>
+NVar == Len(Variants)
+NV == NVar * Len(Cfgs) * NN * NR
+
+VV(k) == Variants[((k - 1) \div (Len(Cfgs) * NN * NR)) + 1]
+VC(k) == (((k - 1) \div (NN * NR)) % Len(Cfgs)) + 1
 VI(k) == (((k - 1) \div NR) % NN) + 1
 VR(k) == RouteSeq[((k - 1) % NR) + 1]
 
 OnlyRepl(i) == \E c \in CfgIx : KindOf(c, i) = "replcmd"
 
 Keep(k) ==
-    LET c == VC(k)  i == VI(k)  r == VR(k) IN
-    IF Sandboxed(c)
-    THEN /\ Callable(c, i) \/ AllRoutes \/ r \in {"direct", "sym"}
-         /\ OnlyRepl(i) => KindOf(c, i) = "replcmd" /\ r = "direct"
-    ELSE NameOf(i) \in Known /\ ~OnlyRepl(i)       \* the control
+    LET c == VC(k)  i == VI(k)  r == VR(k)  v == VV(k) IN
+    IF ~Sandboxed(c)
+    THEN v.pre = "" /\ v.hist = "" /\ NameOf(i) \in Known /\ ~OnlyRepl(i)       \* the control
+    ELSE /\ OnlyRepl(i) => KindOf(c, i) = "replcmd" /\ r = "direct" /\ v.pre = "" /\ v.hist = ""
+         /\ v.hist = "after" => Cfgs[c] \in InProcess          \* (the binary is a process of its own)
+         /\ CASE v.pre = "" /\ v.hist = ""      -> Callable(c, i) \/ AllRoutes \/ r \in {"direct", "sym"}
+              [] v.pre = "" /\ v.hist = "after" -> AllRoutes \/ r \in {"direct", "sym"}
+              [] v.pre = "defn" /\ v.hist = ""   -> Callable(c, i) /\ (AllRoutes \/ r \in {"direct", "eval"})
+              [] v.pre = "defmac" /\ v.hist = "" -> Callable(c, i) /\ (AllRoutes \/ r = "direct")
+              [] OTHER                           -> AllRoutes /\ Callable(c, i)
+
+Suffix(v) == (IF v.pre = "" THEN "" ELSE "+" \o v.pre) \o (IF v.hist = "" THEN "" ELSE "@" \o v.hist)
 
 Vec(k) ==
-    LET c == VC(k)  i == VI(k)  r == VR(k) IN
-    [id    |-> Cfgs[c] \o "/" \o NameOf(i) \o "/" \o r,
-     kind  |-> IF Sandboxed(c) THEN "probe" ELSE "control",
-     cfg   |-> Cfgs[c],
-     names |-> <<NameOf(i)>>,
-     route |-> r,
-     live  |-> Live(c, i, <<r>>),
-     cand  |-> SelectSeq(CapSeq, LAMBDA x : x \in CapOf(c, i, <<r>>))]
+    LET c == VC(k)  i == VI(k)  r == VR(k)  v == VV(k) IN
+    [id     |-> Cfgs[c] \o "/" \o NameOf(i) \o "/" \o r \o Suffix(v),
+     kind   |-> IF Sandboxed(c) THEN "probe" ELSE "control",
+     cfg    |-> Cfgs[c],
+     names  |-> <<NameOf(i)>>,
+     route  |-> r,
+     pre    |-> v.pre,
+     shadow |-> IF v.pre = "" THEN <<>> ELSE ShadowSeq(c),
+     hist   |-> v.hist,
+     live   |-> Live(c, i, <<r>>),
+     cand   |-> SelectSeq(CapSeq, LAMBDA x : x \in CapOf(c, i, <<r>>))]
 
-KeptIx == SelectSeq([k \in 1..NV |-> k], Keep)
-VecSeq == [j \in 1..Len(KeptIx) |-> Vec(KeptIx[j])]
+(* (operators with a parameter: TLC evaluates a constant definition once per worker at startup) *)
+KeptIx(n) == SelectSeq([k \in 1..n |-> k], Keep)
+VecSeq(n) == LET kept == KeptIx(n) IN [j \in 1..Len(kept) |-> Vec(kept[j])]
 
 ASSUME IF "VERIF_VECTORS" \in DOMAIN IOEnv
-       THEN ndJsonSerialize(IOEnv.VERIF_VECTORS, VecSeq)
+       THEN ndJsonSerialize(IOEnv.VERIF_VECTORS, VecSeq(NV))
        ELSE TRUE
 =============================================================================
